@@ -1104,7 +1104,7 @@ class Interp:
                     return res
             if n.id in BUILTIN_EXC or n.id in ("len", "min", "max", "abs", "type", "isinstance", "str", "int", "sum",
                                                "any", "all", "sorted", "reversed", "list", "tuple", "zip", "range",
-                                               "enumerate", "set", "bool", "iter", "next", "repr", "dict", "frozenset", "hash", "slice",
+                                               "enumerate", "set", "bool", "iter", "next", "repr", "dict", "frozenset", "hash", "slice", "staticmethod", "classmethod",
                                                "getattr", "hasattr", "object", "print", "id", "map", "filter", "divmod", "round",
                                                "callable", "ord", "chr", "pow"):
                 return ("builtin", n.id)
@@ -1805,6 +1805,9 @@ class Interp:
                 return False
         if name == "int":
             return int(args[0])
+        if name in ("staticmethod", "classmethod") and len(args) == 1:
+            # used as a function on a class-level value (e.g. `_key = staticmethod(attrgetter("start"))`): the wrapped callable
+            return args[0]
         if name == "bool":
             return self.truth(args[0])
         if name == "sum":
